@@ -290,6 +290,68 @@ Proof.
     rewrite Nat.div2_succ_double. apply update_odd. assumption.
 Qed.
 
+(* ---- lookups in sets and maps (any comparable key type; no sortedness needed) ---- *)
+Lemma bytes_eqb_sym a b : bytes_eqb a b = bytes_eqb b a.
+Proof.
+  destruct (bytes_eqb a b) eqn:E1, (bytes_eqb b a) eqn:E2; try reflexivity.
+  - apply bytes_eqb_spec in E1. subst. assert (bytes_eqb b b = true) by (apply bytes_eqb_spec; reflexivity). congruence.
+  - apply bytes_eqb_spec in E2. subst. assert (bytes_eqb a a = true) by (apply bytes_eqb_spec; reflexivity). congruence.
+Qed.
+
+Lemma bool_eqb_sym a b : Bool.eqb a b = Bool.eqb b a.
+Proof. destruct a, b; reflexivity. Qed.
+
+Lemma py_eq_sym a : forall b, py_eq a b = py_eq b a.
+Proof.
+  induction a as [z|z|z|z|s|s|s|s|b0| |x y IHx IHy|t0|x IHx|x t0 IHx|t0 x IHx|t0 l IHl|t0 l IHl|kt vt l IHl|ta tb body] using pval_ind';
+    intros b; destruct b; simpl; try reflexivity; try apply Z.eqb_sym; try apply bytes_eqb_sym; try apply bool_eqb_sym;
+    try (rewrite IHx, IHy; reflexivity); try apply IHx.
+  all: match goal with |- _ ?l1 ?l2 = _ ?l2 ?l1 => revert l2; induction IHl as [|x r Hx Hr IH]; intros [|y s]; try reflexivity;
+         rewrite Hx, IH; reflexivity end.
+Qed.
+
+Lemma set_mem_agree x l t : typed x t -> Forall (fun y => typed y t) l -> comparable t = true ->
+  v_set_mem (erase x) (map erase l) = Some (py_set_contains x l).
+Proof.
+  intros Hx Hl Hc. induction Hl as [|y l Hy Hl IH]; simpl; [reflexivity|].
+  destruct (compare_agree x t y Hx Hy Hc) as (c & E & Q & _). rewrite E, Q. unfold py_set_contains in IH.
+  destruct c; simpl; [reflexivity | exact IH | exact IH].
+Qed.
+
+Lemma map_get_agree k l kt vt : typed k kt -> Forall (entry_typed kt vt) l -> comparable kt = true ->
+  v_map_get (erase k) (map erase l) = Some (option_map erase (py_map_get k l)).
+Proof.
+  intros Hk Hl Hc. induction Hl as [|y l Hy Hl IH]; simpl; [reflexivity|].
+  destruct Hy as (k' & v & -> & Hk' & Hv). simpl.
+  destruct (compare_agree k kt k' Hk Hk' Hc) as (c & E & Q & _). rewrite E. rewrite (py_eq_sym k' k), Q.
+  destruct c; simpl; [reflexivity | exact IH | exact IH].
+Qed.
+
+(* MEM and GET: the pytezos step (class check included) agrees with the reference rule *)
+Lemma mem_get_agree x t l vt lm :
+  typed x t -> comparable t = true -> Forall (fun y => typed y t) l -> Forall (entry_typed t vt) lm ->
+  (exists fn, py_simple e I_MEM = Some (2, fn) /\
+     fn [x; PSet t l] = POk [PBool (py_set_contains x l)] /\
+     ref_simple e I_MEM (erase x :: VSet (map erase l) :: nil) = Done [VBool (py_set_contains x l)]) /\
+  (exists fn, py_simple e I_GET = Some (2, fn) /\
+     exists r, fn [x; PMap t vt lm] = POk [r] /\ typed r (TOption vt) /\
+     ref_simple e I_GET (erase x :: VMap (map erase lm) :: nil) = Done [erase r]).
+Proof.
+  intros Hx Hc Hl Hlm. split.
+  - eexists. split; [reflexivity|]. cbn [ref_simple]. rewrite (typed_rt_type x t Hx), ty_eqb_refl.
+    rewrite (set_mem_agree x l t Hx Hl Hc). auto.
+  - eexists. split; [reflexivity|]. cbn [ref_simple]. rewrite (typed_rt_type x t Hx), ty_eqb_refl.
+    rewrite (map_get_agree x lm t vt Hx Hlm Hc).
+    exists (py_opt vt (py_map_get x lm)). split; [reflexivity|].
+    assert (Hg : forall v, py_map_get x lm = Some v -> typed v vt).
+    { clear - Hlm. induction Hlm as [|y l Hy Hl IH]; simpl; [discriminate|].
+      destruct Hy as (k' & v' & -> & _ & Hv). destruct (py_eq k' x); [intros v E; injection E as <-; exact Hv | exact IH]. }
+    destruct (py_map_get x lm) as [v|] eqn:E; simpl.
+    + split; [apply (Hg v eq_refl) | reflexivity].
+    + split; [unfold typed; simpl; apply ty_eqb_refl | reflexivity].
+Qed.
+
+
 (* value.to_literal() / the reference's literal of a value: the same well-typed literal (APPLY) *)
 Lemma data_of_pval_ok v : forall t, typed v t -> has_literal t = true -> has_coll t = false ->
   exists d, data_of_pval v = Some d /\ data_of_value t (erase v) = Some d /\ data_has_type t d = true.
@@ -382,6 +444,8 @@ Ltac inv_ty :=
          | H : typed _ TBool |- _ => apply typed_bool_inv in H as [? ->]
          | H : typed _ (TPair _ _) |- _ => apply typed_pair_inv in H as (? & ? & -> & ? & ?)
          | H : typed _ (TList _) |- _ => apply typed_list_inv' in H as (? & -> & ?)
+         | H : typed _ (TSet _) |- _ => apply typed_set_inv in H as (? & -> & ?)
+         | H : typed _ (TMap _ _) |- _ => apply typed_map_inv in H as (? & -> & ?)
          end.
 
 Ltac give_args :=
@@ -509,10 +573,29 @@ Proof.
     apply typed_list_intro. constructor; assumption.
   - (* SIZE *) tc_cases Htc; injection Htc as <-; inv_f2; inv_ty; give_args; simpl;
       (eexists; split; [reflexivity | split; [simpl; rewrite ?map_length; reflexivity | constructor; [apply typed_nat_intro; lia | assumption]]]).
-  - (* EMPTY_SET *) discriminate Htc.
-  - (* EMPTY_MAP *) discriminate Htc.
-  - (* MEM *) discriminate Htc.
-  - (* GET *) discriminate Htc.
+  - (* EMPTY_SET *) tc_cases Htc. injection Htc as <-. give_args. simpl. finish.
+  - (* EMPTY_MAP *) tc_cases Htc. injection Htc as <-. give_args. simpl. finish.
+  - (* MEM *) tc_cases Htc; injection Htc as <-;
+      match goal with H : (_ && _) = true |- _ => apply andb_prop in H as [Q1 Q2]; apply ty_eqb_eq in Q1; subst end; inv_f2.
+    + match goal with H : typed _ (TSet _) |- _ => apply typed_set_inv in H as (l0 & -> & Hl0) end. give_args. simpl.
+      match goal with Hx : typed ?x ?t |- _ => rewrite (typed_rt_type x t Hx), ty_eqb_refl, (set_mem_agree x l0 t Hx Hl0 Q2) end.
+      eexists; split; [reflexivity | split; [reflexivity | constructor; [reflexivity | assumption]]].
+    + match goal with H : typed _ (TMap _ _) |- _ => apply typed_map_inv in H as (l0 & -> & Hl0) end. give_args. simpl.
+      match goal with Hx : typed ?x ?t |- _ =>
+        rewrite (typed_rt_type x t Hx), ty_eqb_refl; rewrite (map_get_agree x l0 t _ Hx Hl0 Q2) end.
+      match goal with |- context [py_map_get ?x ?l] => destruct (py_map_get x l) end; simpl;
+        (eexists; split; [reflexivity | split; [reflexivity | constructor; [reflexivity | assumption]]]).
+  - (* GET *) tc_cases Htc; injection Htc as <-;
+      match goal with H : (_ && _) = true |- _ => apply andb_prop in H as [Q1 Q2]; apply ty_eqb_eq in Q1; subst end; inv_f2.
+    match goal with H : typed _ (TMap _ _) |- _ => apply typed_map_inv in H as (l0 & -> & Hl0) end. give_args. simpl.
+    match goal with Hx : typed ?x ?t |- _ =>
+      rewrite (typed_rt_type x t Hx), ty_eqb_refl; rewrite (map_get_agree x l0 t _ Hx Hl0 Q2) end.
+    match type of Hl0 with Forall (entry_typed _ ?vt) _ => assert (Hg : forall k v, py_map_get k l0 = Some v -> typed v vt) end.
+    { clear - Hl0. intros k. induction Hl0 as [|y l Hy Hl IH]; simpl; [discriminate|].
+      destruct Hy as (k' & v' & -> & _ & Hv). destruct (py_eq k' k); [intros v E; injection E as <-; exact Hv | exact IH]. }
+    match goal with |- context [py_map_get ?x ?l] => destruct (py_map_get x l) as [v|] eqn:Eg end; simpl.
+    + eexists; split; [reflexivity | split; [reflexivity | constructor; [apply (Hg _ _ Eg) | assumption]]].
+    + eexists; split; [reflexivity | split; [reflexivity | constructor; [unfold typed; simpl; apply ty_eqb_refl | assumption]]].
   - (* UPDATE *) discriminate Htc.
   - (* GET_AND_UPDATE *) discriminate Htc.
   - (* ADD *) unfold add_ty in Htc. tc_cases Htc; injection Htc as <-; inv_f2; inv_ty; give_args; simpl; unfold py_arith; simpl;
@@ -907,14 +990,30 @@ Section Sim.
           - congruence. }
         simpl. exists (w :: rest). repeat split; auto. constructor; assumption.
     - (* ITER *)
-      destruct s as [|[] r]; try discriminate. cbv beta iota in Htc. inversion Hs as [|v ? rest ? Hv Hr]; subst.
-      apply typed_list_inv' in Hv as (l & -> & Hl). simpl. rewrite pop1_mkst.
-      destruct (typecheck_gen true c (a :: r)) as [Rc|] eqn:Ec; [|discriminate].
-      assert (HR : R = Typed r /\ (Rc = Typed r \/ Rc = Failing)).
-      { destruct Rc as [s1|].
-        - destruct (sty_eqb s1 r) eqn:Q; [|discriminate]. apply sty_eqb_eq in Q. subst. split; [congruence | auto].
-        - split; [congruence | auto]. }
-      destruct HR as [-> HR]. apply (iter_sim c a r Rc pre Ec HR); assumption.
+      assert (K : forall a r l rest, typecheck_gen true c (a :: r) <> None ->
+                 (match typecheck_gen true c (a :: r) with
+                  | Some (Typed s1) => if sty_eqb s1 r then Some (Typed r) else None
+                  | Some Failing => Some (Typed r)
+                  | None => None
+                  end = Some R) ->
+                 Forall (fun x => typed x a) l -> styped rest r ->
+                 sim_rel R pre (ref_iter (ref_eval e f c) (map erase l) (map erase rest)) (py_iter (py_eval e f c) l (mkst pre rest))).
+      { intros a r l rest _ Htc' Hl Hr.
+        destruct (typecheck_gen true c (a :: r)) as [Rc|] eqn:Ec; [|discriminate].
+        assert (HR : R = Typed r /\ (Rc = Typed r \/ Rc = Failing)).
+        { destruct Rc as [s1|].
+          - destruct (sty_eqb s1 r) eqn:Q; [|discriminate]. apply sty_eqb_eq in Q. subst. split; [congruence | auto].
+          - split; [congruence | auto]. }
+        destruct HR as [-> HR]. apply (iter_sim c a r Rc pre Ec HR); assumption. }
+      destruct s as [|[] r]; try discriminate; cbv beta iota in Htc; inversion Hs as [|pv ? rest ? Hv Hr]; subst.
+      + (* list *) apply typed_list_inv' in Hv as (l & -> & Hl). simpl. rewrite pop1_mkst.
+        apply (K a r l rest); auto. intros C. rewrite C in Htc. discriminate.
+      + (* set *) apply typed_set_inv in Hv as (l & -> & Hl). simpl. rewrite pop1_mkst.
+        apply (K k r l rest); auto. intros C. rewrite C in Htc. discriminate.
+      + (* map: the entries are pairs *) apply typed_map_inv in Hv as (l & -> & Hl). simpl. rewrite pop1_mkst.
+        match type of Hl with Forall (entry_typed ?kt ?vt) _ => apply (K (TPair kt vt) r l rest); auto end.
+        * intros C. rewrite C in Htc. discriminate.
+        * eapply Forall_impl; [|exact Hl]. intros x Hx. apply entry_typed_pair. exact Hx.
     - (* MAP *)
       destruct s as [|[] r]; try discriminate. inversion Hs as [|v ? rest ? Hv Hr]; subst.
       apply typed_list_inv' in Hv as (l & -> & Hl). simpl. rewrite pop1_mkst.
@@ -1168,7 +1267,6 @@ Lemma tc_simple_sub i s x : tc_simple true i s = Some x -> tc_simple false i s =
 Proof.
   destruct i; simpl; try (intros H; exact H); try discriminate.
   - (* PUSH *) destruct (data_has_type t d); simpl; [|discriminate]. destruct (has_coll t); simpl; [discriminate | auto].
-  - (* SIZE *) destruct s as [|[] r]; auto; discriminate.
   - (* APPLY *) destruct s as [|ta [|[] r]]; auto. destruct a; auto. destruct (ty_eqb ta a1); simpl; auto.
     destruct (has_literal ta); simpl; auto. destruct (has_coll ta); simpl; [discriminate | auto].
 Qed.
@@ -1203,8 +1301,9 @@ Proof.
     destruct (typecheck_gen true c r) as [x|] eqn:E1; [|discriminate]. rewrite (IHc _ _ E1). assumption.
   - destruct s as [|[] r]; try discriminate.
     destruct (typecheck_gen true c (a :: r)) as [x|] eqn:E1; [|discriminate]. rewrite (IHc _ _ E1). assumption.
-  - destruct s as [|[] r]; try discriminate. cbv beta iota in *.
-    destruct (typecheck_gen true c (a :: r)) as [x|] eqn:E1; [|discriminate]. rewrite (IHc _ _ E1). assumption.
+  - destruct s as [|[] r]; try discriminate; cbv beta iota in *;
+      match type of H with context [typecheck_gen true c ?st] =>
+        destruct (typecheck_gen true c st) as [x|] eqn:E1; [|discriminate]; rewrite (IHc _ _ E1); assumption end.
   - destruct s as [|[] r]; try discriminate.
     destruct (typecheck_gen true c (a :: r)) as [[[|b r1]|]|] eqn:E1; try discriminate. rewrite (IHc _ _ E1).
     destruct (sty_eqb r1 r); simpl in *; [|discriminate]. destruct (ty_eqb a b); [assumption | discriminate].
@@ -1240,69 +1339,6 @@ Qed.
 End WithEnv.
 
 (* ------------------------------------------------------------------------------------------ *)
-(* ---- lookups in sets and maps (any comparable key type; no sortedness needed) ---- *)
-Lemma bytes_eqb_sym a b : bytes_eqb a b = bytes_eqb b a.
-Proof.
-  destruct (bytes_eqb a b) eqn:E1, (bytes_eqb b a) eqn:E2; try reflexivity.
-  - apply bytes_eqb_spec in E1. subst. assert (bytes_eqb b b = true) by (apply bytes_eqb_spec; reflexivity). congruence.
-  - apply bytes_eqb_spec in E2. subst. assert (bytes_eqb a a = true) by (apply bytes_eqb_spec; reflexivity). congruence.
-Qed.
-
-Lemma bool_eqb_sym a b : Bool.eqb a b = Bool.eqb b a.
-Proof. destruct a, b; reflexivity. Qed.
-
-Lemma py_eq_sym a : forall b, py_eq a b = py_eq b a.
-Proof.
-  induction a as [z|z|z|z|s|s|s|s|b0| |x y IHx IHy|t0|x IHx|x t0 IHx|t0 x IHx|t0 l IHl|t0 l IHl|kt vt l IHl|ta tb body] using pval_ind';
-    intros b; destruct b; simpl; try reflexivity; try apply Z.eqb_sym; try apply bytes_eqb_sym; try apply bool_eqb_sym;
-    try (rewrite IHx, IHy; reflexivity); try apply IHx.
-  all: match goal with |- _ ?l1 ?l2 = _ ?l2 ?l1 => revert l2; induction IHl as [|x r Hx Hr IH]; intros [|y s]; try reflexivity;
-         rewrite Hx, IH; reflexivity end.
-Qed.
-
-Lemma set_mem_agree x l t : typed x t -> Forall (fun y => typed y t) l -> comparable t = true ->
-  v_set_mem (erase x) (map erase l) = Some (py_set_contains x l).
-Proof.
-  intros Hx Hl Hc. induction Hl as [|y l Hy Hl IH]; simpl; [reflexivity|].
-  destruct (compare_agree x t y Hx Hy Hc) as (c & E & Q & _). rewrite E, Q. unfold py_set_contains in IH.
-  destruct c; simpl; [reflexivity | exact IH | exact IH].
-Qed.
-
-Definition entry_typed (kt vt : ty) (x : pval) : Prop := exists k v, x = PPair k v /\ typed k kt /\ typed v vt.
-
-Lemma map_get_agree k l kt vt : typed k kt -> Forall (entry_typed kt vt) l -> comparable kt = true ->
-  v_map_get (erase k) (map erase l) = Some (option_map erase (py_map_get k l)).
-Proof.
-  intros Hk Hl Hc. induction Hl as [|y l Hy Hl IH]; simpl; [reflexivity|].
-  destruct Hy as (k' & v & -> & Hk' & Hv). simpl.
-  destruct (compare_agree k kt k' Hk Hk' Hc) as (c & E & Q & _). rewrite E. rewrite (py_eq_sym k' k), Q.
-  destruct c; simpl; [reflexivity | exact IH | exact IH].
-Qed.
-
-(* MEM and GET: the pytezos step (class check included) agrees with the reference rule *)
-Lemma mem_get_agree (e : env) x t l vt lm :
-  typed x t -> comparable t = true -> Forall (fun y => typed y t) l -> Forall (entry_typed t vt) lm ->
-  (exists fn, py_simple e I_MEM = Some (2, fn) /\
-     fn [x; PSet t l] = POk [PBool (py_set_contains x l)] /\
-     ref_simple e I_MEM (erase x :: VSet (map erase l) :: nil) = Done [VBool (py_set_contains x l)]) /\
-  (exists fn, py_simple e I_GET = Some (2, fn) /\
-     exists r, fn [x; PMap t vt lm] = POk [r] /\ typed r (TOption vt) /\
-     ref_simple e I_GET (erase x :: VMap (map erase lm) :: nil) = Done [erase r]).
-Proof.
-  intros Hx Hc Hl Hlm. split.
-  - eexists. split; [reflexivity|]. cbn [ref_simple]. rewrite (typed_rt_type x t Hx), ty_eqb_refl.
-    rewrite (set_mem_agree x l t Hx Hl Hc). auto.
-  - eexists. split; [reflexivity|]. cbn [ref_simple]. rewrite (typed_rt_type x t Hx), ty_eqb_refl.
-    rewrite (map_get_agree x lm t vt Hx Hlm Hc).
-    exists (py_opt vt (py_map_get x lm)). split; [reflexivity|].
-    assert (Hg : forall v, py_map_get x lm = Some v -> typed v vt).
-    { clear - Hlm. induction Hlm as [|y l Hy Hl IH]; simpl; [discriminate|].
-      destruct Hy as (k' & v' & -> & _ & Hv). destruct (py_eq k' x); [intros v E; injection E as <-; exact Hv | exact IH]. }
-    destruct (py_map_get x lm) as [v|] eqn:E; simpl.
-    + split; [apply (Hg v eq_refl) | reflexivity].
-    + split; [unfold typed; simpl; apply ty_eqb_refl | reflexivity].
-Qed.
-
 (* ------------------------------------------------------------------------------------------ *)
 (* kernel-checked witnesses of the known finding (MAP over an empty list keeps the source class). *)
 (* Each fact is one closed equation proved by vm_compute, so that Qed re-checks it with a vm cast. *)
